@@ -270,9 +270,16 @@ func c17Run(r *core.Run) {
 	if r.Thorough() {
 		r.SetBudget(10 * time.Minute)
 	}
-	optsets := []c17Opts{{}, {Charset: "gbk"}, {JSONIndent: "  "}, {XMLIndent: "\t"}, {Charset: "gbk", JSONIndent: " ", XMLIndent: "  "}}
+	var optsets []c17Opts
+	for _, cs := range []string{"", "gbk"} {
+		for _, ji := range []string{"", "  "} {
+			for _, xi := range []string{"", "\t"} {
+				optsets = append(optsets, c17Opts{Charset: cs, JSONIndent: ji, XMLIndent: xi})
+			}
+		}
+	}
 	ops := c17Ops(r.Thorough())
-	r.Rule = "engine E: every status 100..599 x {JSON, XML, Binary, PlainText} x 5 option sets (charset, JSON indent, XML indent); values: every byte string of length <=1 and a grid (thorough: all) of length 2 plus longer ones for Binary/PlainText, JSON trees over {null,bool,numbers,strings incl. html-sensitive and non-ASCII} to depth 2 width 2 plus structs/slices/maps, five XML struct shapes with all field values from {'', a, <&>\", e-acute, blanks, ]]>}; oracle: exact status at the underlying writer, exact Content-Type, bytes/strings verbatim, JSON/XML text equal to the standard encoder's output with the configured indentation and decoding back to an equal value; non-trivial = non-200 status or a value that needs escaping"
+	r.Rule = "engine E: every status 100..599 x {JSON, XML, Binary, PlainText} x all 8 option sets (charset x JSON indent x XML indent); values: every byte string of length <=1 and a grid (thorough: all) of length 2 plus longer ones for Binary/PlainText, JSON trees over {null,bool,numbers,strings incl. html-sensitive and non-ASCII} to depth 2 width 2 plus structs/slices/maps, five XML struct shapes with all field values from {'', a, <&>\", e-acute, blanks, ]]>}; oracle: exact status at the underlying writer, exact Content-Type, bytes/strings verbatim, JSON/XML text equal to the standard encoder's output with the configured indentation and decoding back to an equal value; non-trivial = non-200 status or a value that needs escaping"
 	r.Bounds["ops"] = len(ops)
 	r.Bounds["option_sets"] = len(optsets)
 	r.Assumptions = []string{"encoding/json and encoding/xml are the reference encoders (trusted)", "values the standard encoders refuse are outside the statement"}
